@@ -52,9 +52,9 @@ def leftsibling(node):
     >>> print(util.leftsibling(joe))
     Node('/Dan/Jan')
     """
-    if node.parent:
+    if node.parent is not None:
         pchildren = node.parent.children
-        idx = pchildren.index(node)
+        idx = _index(pchildren, node)
         if idx:
             return pchildren[idx - 1]
     return None
@@ -78,12 +78,20 @@ def rightsibling(node):
     >>> print(util.rightsibling(joe))
     None
     """
-    if node.parent:
+    if node.parent is not None:
         pchildren = node.parent.children
-        idx = pchildren.index(node)
+        idx = _index(pchildren, node)
         try:
             return pchildren[idx + 1]
         except IndexError:
             return None
     else:
         return None
+
+
+def _index(nodes, node):
+    # identity search: nodes may define their own __eq__, __bool__ or __len__
+    for idx, item in enumerate(nodes):
+        if item is node:
+            return idx
+    raise ValueError("%r is not in %r" % (node, nodes))
